@@ -134,21 +134,45 @@ func (tr *Tr) sliceAssumptions(o *Obligation, extra []*Term) []*Term {
 		collectSyms(e, map[*Term]bool{}, syms)
 	}
 	type cand struct {
-		t    *Term
-		syms map[string]bool
-		used bool
+		t      *Term
+		syms   map[string]bool
+		used   bool
+		region *Term
 	}
 	var cands []*cand
 	for _, a := range tr.assumes[:o.NAssume] {
-		c := &cand{t: a.T, syms: map[string]bool{}}
+		c := &cand{t: a.T, syms: map[string]bool{}, region: a.Region}
 		collectSyms(a.T, map[*Term]bool{}, c.syms)
 		cands = append(cands, c)
+	}
+	// terms occurring in the goal and in ordinary assumptions (to decide whether a zero-init fact can matter)
+	occurs := map[*Term]bool{}
+	var mark func(t *Term)
+	seenM := map[*Term]bool{}
+	mark = func(t *Term) {
+		if seenM[t] {
+			return
+		}
+		seenM[t] = true
+		if (t.Op == "select" || t.Op == "store") && len(t.Args) >= 2 {
+			occurs[t.Args[1]] = true // used as an index
+		}
+		for _, a := range t.Args {
+			mark(a)
+		}
+	}
+	mark(goal)
+	for _, e := range extra {
+		mark(e)
 	}
 	changed := true
 	for changed {
 		changed = false
 		for _, c := range cands {
 			if c.used {
+				continue
+			}
+			if c.region != nil && !occurs[c.region] {
 				continue
 			}
 			hit := len(c.syms) == 0
@@ -163,6 +187,9 @@ func (tr *Tr) sliceAssumptions(o *Obligation, extra []*Term) []*Term {
 				changed = true
 				for s := range c.syms {
 					syms[s] = true
+				}
+				if c.region == nil {
+					mark(c.t)
 				}
 			}
 		}
